@@ -38,6 +38,7 @@ type Schedule struct {
 	Preempt []Pre  `json:"preempt"` // explicit preemption points
 	Forced  []int  `json:"forced"`  // choices taken when the current goroutine cannot continue
 	SelMode uint64 `json:"selmode"` // see verifsim.Activate
+	MapSeed uint64 `json:"mapseed,omitempty"` // 0: maps of the system under test are ranged in sorted key order, else in a permutation drawn from this seed per iteration
 }
 
 type prng struct{ x uint64 }
@@ -432,6 +433,7 @@ func Run(t *testing.T, sch Schedule, maxSteps int, body func(sim *Sim)) (res *Re
 		s.Choose = sch.chooser(&res.Stats)
 		uuid.SetRand(&detReader{r: prng{x: 0x5eed ^ sch.Seed*31}})
 		defer uuid.SetRand(nil)
+		s.SetMapSeed(sch.MapSeed)
 		s.Activate(sch.SelMode)
 		defer func() {
 			// oracles iterate over maps: make the list independent of that order
